@@ -214,8 +214,10 @@ def ccm(case, ctx):
 # ---------------------------------------------------------------------------
 # streaming interfaces: the wire format is ciphertext||tag
 
-def run_stream(l, prefix, ctxname, key, iv, aad, data, parts, enc, keyarg, slack=0):
-    """init/update*/finish of one of the streaming AEADs. Returns (accepted, output)."""
+def run_stream(l, prefix, ctxname, key, iv, aad, data, parts, enc, keyarg, slack=0, query=False):
+    """init/update*/finish of one of the streaming AEADs. Returns (accepted, output).
+    query: every update / finish is preceded by the size query the interface offers (same call with a null output buffer), as a caller
+    that sizes its buffers dynamically does; a query must not consume input or change the verdict"""
     c = obj(ctxname)
     init = getattr(l, "%s_%s_init" % (prefix, "encrypt" if enc else "decrypt"))
     upd = getattr(l, "%s_%s_update" % (prefix, "encrypt" if enc else "decrypt"))
@@ -232,6 +234,9 @@ def run_stream(l, prefix, ctxname, key, iv, aad, data, parts, enc, keyarg, slack
         off += p
         ob = Buf(p + 48, fill=0)
         ol = c_size_t(0)
+        if query:
+            upd(c, inb, p, None, byref(ol))
+            ol = c_size_t(0)
         r = upd(c, inb, p, ob, byref(ol))
         if r != 1:
             ok = False
@@ -299,11 +304,11 @@ def gcm_stream(case, ctx):
     slack = (16 - taglen) if (taglen < 16 and known(ctx, GCM_OVERREAD)) else 0
 
     def dec(iv_, aad_, wire_, want_pt=False):
-        ok, pt = run_stream(l, "sm4_gcm", "SM4_GCM_CTX", kw, iv_, aad_, wire_, parts_of(len(wire_), case["dcuts"]), False, keyarg, slack)
+        ok, pt = run_stream(l, "sm4_gcm", "SM4_GCM_CTX", kw, iv_, aad_, wire_, parts_of(len(wire_), case["dcuts"]), False, keyarg, slack, query=case["seed"] % 3 == 0)
         return (ok, pt) if want_pt else ok
     E = Enum(ctx, "gcm_stream", case)
     ok, pt = dec(iv, aad, wire, True)
-    ctx.case(nontrivial=True, classes=["gcm_stream/positive-control", "gcm_stream/taglen=%d" % taglen], ident=[E.ih, "control"], sample=case)
+    ctx.case(nontrivial=True, classes=["gcm_stream/positive-control", "gcm_stream/taglen=%d" % taglen, "gcm_stream/size-queries" if case["seed"] % 3 == 0 else "gcm_stream/plain-calls"], ident=[E.ih, "control"], sample=case)
     ctx.check(ok and pt == msg, "sm4_gcm_decrypt_* of the untouched stream: accepted=%s, plaintext ok=%s" % (ok, pt == msg), "gcm_stream/positive-control")
     enumerate_stream(E, dec, iv, aad, wire, taglen, "sm4_gcm_decrypt_*(key=%s, taglen=%d, chunks by %s)" % (key.hex(), taglen, case["dcuts"]), (1, 64))
 
@@ -322,7 +327,7 @@ def _hmac_mode(mode, prefix, ctxname):
         ctx.check(ok and len(wire) >= 32, "%s_encrypt_* failed or produced %d bytes" % (prefix, len(wire)), mode + "/encrypt")
 
         def dec(iv_, aad_, wire_, want_pt=False):
-            ok, pt = run_stream(l, prefix, ctxname, key, iv_, aad_, wire_, parts_of(len(wire_), case["dcuts"]), False, keyarg)
+            ok, pt = run_stream(l, prefix, ctxname, key, iv_, aad_, wire_, parts_of(len(wire_), case["dcuts"]), False, keyarg, query=case["seed"] % 3 == 0)
             return (ok, pt) if want_pt else ok
         E = Enum(ctx, mode, case)
         ok, pt = dec(iv, aad, wire, True)
